@@ -25,9 +25,12 @@ def PV(rate, periods, payment, future=None, type=None):
         if rate > -1:
             # (1 + rate)**periods - 1 without cancellation: for small rates the difference
             # of two numbers close to 1 loses most of its digits (rate 1e-9: 7 of 16)
-            growth = math.expm1(periods * math.log1p(rate))
+            log_growth = periods * math.log1p(rate)
+            growth = math.expm1(log_growth)
+            compound = math.exp(log_growth)
         else:
             # math.pow and not **: an integer rate of -2 or less with a huge integer number of
             # periods would be multiplied out exactly, for ever
-            growth = math.pow(1 + rate, periods) - 1
-        return ((-growth / rate) * payment * (1 + rate * type) - future) / (1 + growth)
+            compound = math.pow(1 + rate, periods)
+            growth = compound - 1
+        return ((-growth / rate) * payment * (1 + rate * type) - future) / compound
